@@ -119,9 +119,11 @@ pub struct Outcome {
 pub fn check(prop_tag: &str, c: &RCase, rep: &mut Report, track_fill: bool) -> Outcome {
     let e = c.cfg.e;
     let wbits = c.cfg.kind.word_bits();
-    assert!(c.image.len() % (wbits / 8) == 0);
-    let bits = bits_of_image(&c.image, e);
-    let mut h = make_reader(c.cfg, &c.image);
+    // a byte source whose length is not a multiple of the word size (byte adapters only): the
+    // stream is its whole words, the trailing partial word can only make a read fail
+    let aligned = c.image.len() - c.image.len() % (wbits / 8);
+    let bits = bits_of_image(&c.image[..aligned], e);
+    let mut h = if aligned == c.image.len() { make_reader(c.cfg, &c.image) } else { make_reader_unaligned(c.cfg, &c.image) };
     let kv = || c.to_kv();
     let out = run_ops(prop_tag, &mut h, &bits, 0, &c.ops, rep, track_fill, &kv);
     if out.completed {
@@ -352,7 +354,7 @@ pub fn gen_history(rng: &mut Rng, cfg: RCfg, image: &[u8], len: usize, o: &GenOp
         } else {
             ROp::Read(rng.below(65) as usize)
         };
-        if !zext && o.seeks && rng.chance(1, 30) && pos + 64 > total {
+        if !zext && o.seeks && rng.chance(1, 10) && pos + 64 > total {
             ops.push(ROp::PastEnd);
             let p = rng.below(total as u64 + 1);
             ops.push(ROp::Seek(p));
